@@ -286,6 +286,16 @@ class BridgeRun:
             elif do == "cycle":
                 await vnet.settle(3)
                 self.log(ev="Cycle")
+            elif do == "neterr":
+                # the OS reports an error on one of the sockets (asyncio calls protocol.error_received)
+                ep = self.net.udp.get(st["p"])
+                handed = ep is not None and not ep.closing
+                x0 = len(self.loop.exceptions)
+                if handed:
+                    self.loop.call_soon(ep.protocol.error_received, OSError(111, "Connection refused") if st.get("exc", True) else None)
+                await vnet.settle(2)
+                self.log(ev="NetErr", p=st["p"], handed=bool(handed), raised=len(self.loop.exceptions) > x0)
+                self.log(ev="Cycle")
             elif do == "occupy":
                 if st["p"] in self.net.udp or st["p"] in self.net.occupied:
                     continue
